@@ -1,5 +1,5 @@
 (* C08 correspondence: cases written by harness/cmd/c08 are evaluated here by vm_compute. *)
-From PF Require Export Base.Bytes Formats.PlyRead Formats.PlyText Check.Common.
+From PF Require Export Base.Bytes Formats.PlyRead Formats.PlyReadV2 Formats.PlyText Check.Common.
 From Coq Require Import String.
 Open Scope list_scope.
 Open Scope N_scope.
@@ -22,6 +22,20 @@ Inductive case :=
                                                          found in them: ties Formats/PlyText.v (readLine, strings.Fields) *)
 | CRaw (f : plyfile) (out : outcome).                 (* malformed stream or file outside the property's quantifier:
                                                          model vs implementation only *)
+
+(* uchar (s, t) files: the implementation's TexCoord values are float64(b) * (1/255) (vector2.DivByConstant); they are
+   translated to the division table the model and [describe] use (Formats/PlyReadV2.v).  Not when the face element has
+   a texcoord list: then TexCoord holds the per-corner coordinates of the faces. *)
+Definition has_face_tex (a : absfile) : bool :=
+  match a_fprops a with
+  | Some fps => existsb (fun p : sty * sty * string => seqb (snd p) "texcoord") fps
+  | None => false
+  end.
+Definition adjust (a : absfile) (o : outcome) : outcome :=
+  match o with
+  | OMesh m => if uchar_st (a_vprops a) && negb (has_face_tex a) then OMesh (st_to_div m) else o
+  | _ => o
+  end.
 
 Definition outcome_matches (r : result mesh) (o : outcome) : bool :=
   match r, o with
@@ -60,8 +74,8 @@ Definition header_agrees (a : absfile) (f : plyfile) : bool :=
 (* model vs implementation; also ties the Coq reference encoder to the harness' Go reference encoder *)
 Definition corr_ok (c : case) : bool :=
   match c with
-  | CSpec a f out => header_agrees a f && body_agrees (enc_body a) (pf_body f) && outcome_matches (read_mesh f) out
-  | CElems a f out => outcome_matches (read_mesh f) out
+  | CSpec a f out => header_agrees a f && body_agrees (enc_body a) (pf_body f) && outcome_matches (read_mesh f) (adjust a out)
+  | CElems a f out => outcome_matches (read_mesh f) (adjust a out)
   | CMisplaced _ _ => true
   | CHeader text lines => list_eqb (list_eqb seqb) (header_lines text) (lines ++ [[]])
   | CRaw f out => outcome_matches (read_mesh f) out
@@ -71,7 +85,7 @@ Definition corr_ok (c : case) : bool :=
 Definition prop_ok (c : case) : bool :=
   match c with
   | CSpec a _ out | CElems a _ out =>
-      match describe a, out with
+      match describe a, adjust a out with
       | Ok m, OMesh m' => mesh_eqb m m'
       | _, _ => false
       end
